@@ -1068,6 +1068,9 @@ pub enum Edit {
     Retype(u16, u8, TVal),
     /// the writer emits fields in another order
     Reorder(u16, u8),
+    /// a set element / map key that is a struct gets a twin that agrees with it on every field
+    /// and carries one more field the reader does not know: (node selector, id seed, value)
+    SplitKey(u16, u16, TVal),
 }
 
 #[derive(Debug, Clone, Default)]
@@ -1079,6 +1082,7 @@ pub struct EditInfo {
     pub removed: usize,
     pub retyped: usize,
     pub reordered: usize,
+    pub split_keys: usize,
 }
 
 fn fresh_id(known: &[i16], present: &[(i16, TVal)], seed: u16) -> i16 {
@@ -1161,6 +1165,51 @@ impl SDoc {
                         }
                     }
                 }
+                Edit::SplitKey(ns, ids, val) => {
+                    // struct nodes that are a set element or a map key (unions carry one field only)
+                    let cands: Vec<&StructNode> = nodes
+                        .iter()
+                        .filter(|n| !n.is_union)
+                        .filter(|n| match n.path.split_last() {
+                            Some((PathStep::MapKey(_), _)) => true,
+                            Some((PathStep::Elem(_), parent)) => {
+                                let mut probe = v.clone();
+                                matches!(node_mut(&mut probe, parent), Some(TVal::Set(..)))
+                            }
+                            _ => false,
+                        })
+                        .collect();
+                    if !cands.is_empty() {
+                        let n = cands[(*ns as usize * cands.len()) >> 16];
+                        let (last, parent) = n.path.split_last().unwrap();
+                        let mut twin = None;
+                        if let Some(TVal::Struct(fs)) = node_mut(&mut v, &n.path) {
+                            let id = fresh_id(&n.known_ids, fs, *ids);
+                            let mut t = fs.clone();
+                            t.push((id, val.clone()));
+                            twin = Some(TVal::Struct(t));
+                        }
+                        if let (Some(twin), Some(container)) = (twin, node_mut(&mut v, parent)) {
+                            match (last, container) {
+                                (PathStep::Elem(_), TVal::Set(_, es)) if !es.contains(&twin) => {
+                                    es.push(twin);
+                                    info.split_keys += 1;
+                                }
+                                (PathStep::MapKey(i), TVal::Map(_, _, es)) if !es.iter().any(|(k, _)| *k == twin) => {
+                                    let val = es[*i].1.clone();
+                                    es.push((twin, val));
+                                    info.split_keys += 1;
+                                }
+                                _ => {}
+                            }
+                            if info.split_keys > 0 {
+                                info.added += 1;
+                                info.added_nested += 1;
+                                info.added_in_container += 1;
+                            }
+                        }
+                    }
+                }
                 Edit::Reorder(ns, k) => {
                     let n = sel(*ns);
                     if let Some(TVal::Struct(fs)) = node_mut(&mut v, &n.path) {
@@ -1178,6 +1227,18 @@ impl SDoc {
         }
         (v, info)
     }
+}
+
+/// Edits for readers that retain unknown fields: unknown fields, reordering, and twins of set
+/// elements / map keys that differ in an unknown field only.
+pub fn arb_unknown_edit() -> BoxedStrategy<Edit> {
+    let cfg = crate::tval::GenCfg { utf8: true, max_big: 300, max_children: 3 };
+    let small = (0u32..=1).prop_flat_map(move |d| crate::tval::arb_any(d, cfg));
+    prop_oneof![
+        8 => arb_edit().prop_filter("unknown-field edits only", |e| matches!(e, Edit::AddUnknown(..) | Edit::Reorder(..))),
+        1 => (any::<u16>(), any::<u16>(), small).prop_map(|(a, b, c)| Edit::SplitKey(a, b, c)),
+    ]
+    .boxed()
 }
 
 pub fn arb_edit() -> BoxedStrategy<Edit> {
@@ -1251,42 +1312,54 @@ impl SDoc {
     /// declared outer wire type, its content has the declared inner types too ("retyping inside
     /// a container is outside the property").
     pub fn tolerant_conforms_shape(&self, s: &Shape, v: &TVal) -> bool {
+        self.tolerant_conforms_shape_for(s, v, false)
+    }
+    /// `keep`: the reader retains unknown fields, so two set members / map keys that agree on
+    /// every known field and differ in what else they carry are two members for it.
+    pub fn tolerant_conforms_shape_for(&self, s: &Shape, v: &TVal, keep: bool) -> bool {
         match s {
-            Shape::Struct(fs) | Shape::Union { fields: fs, .. } => self.tc_fields(fs, v),
+            Shape::Struct(fs) | Shape::Union { fields: fs, .. } => self.tc_fields(fs, v, keep),
             Shape::Enum(_) => true,
-            Shape::Alias(t) => self.tc_ty(t, v),
+            Shape::Alias(t) => self.tc_ty(t, v, keep),
         }
     }
-    fn tc_ty(&self, ty: &STy, v: &TVal) -> bool {
+    fn reader_key(&self, ty: &STy, v: &TVal, keep: bool) -> Vec<u8> {
+        let mut k = self.filled_key(ty, v);
+        if keep {
+            k.extend_from_slice(&canon_key(&canon(v)));
+        }
+        k
+    }
+    fn tc_ty(&self, ty: &STy, v: &TVal, keep: bool) -> bool {
         if self.wire_tt(ty) != v.tt() {
             return false;
         }
         match self.resolve(ty) {
-            Resolved::Struct(fs) | Resolved::Union(fs) => self.tc_fields(fs, v),
+            Resolved::Struct(fs) | Resolved::Union(fs) => self.tc_fields(fs, v, keep),
             Resolved::Enum(_) => true,
             Resolved::Plain(p) => match (p, v) {
-                (STy::List(e), TVal::List(t, es)) => es.is_empty() || (*t == self.wire_tt(e) && es.iter().all(|x| self.tc_ty(e, x))),
+                (STy::List(e), TVal::List(t, es)) => es.is_empty() || (*t == self.wire_tt(e) && es.iter().all(|x| self.tc_ty(e, x, keep))),
                 // set members / map keys must stay distinct for the reader (unknown members
                 // ignored, defaults filled): which of two colliding entries survives is not
                 // something the properties fix
                 (STy::Set(e), TVal::Set(t, es)) => {
-                    es.is_empty() || (*t == self.wire_tt(e) && es.iter().all(|x| self.tc_ty(e, x)) && es.iter().map(|x| self.filled_key(e, x)).collect::<std::collections::BTreeSet<_>>().len() == es.len())
+                    es.is_empty() || (*t == self.wire_tt(e) && es.iter().all(|x| self.tc_ty(e, x, keep)) && es.iter().map(|x| self.reader_key(e, x, keep)).collect::<std::collections::BTreeSet<_>>().len() == es.len())
                 }
                 (STy::Map(k, vt), TVal::Map(a, b, es)) => {
                     es.is_empty()
                         || (*a == self.wire_tt(k)
                             && *b == self.wire_tt(vt)
-                            && es.iter().all(|(x, y)| self.tc_ty(k, x) && self.tc_ty(vt, y))
-                            && es.iter().map(|(x, _)| self.filled_key(k, x)).collect::<std::collections::BTreeSet<_>>().len() == es.len())
+                            && es.iter().all(|(x, y)| self.tc_ty(k, x, keep) && self.tc_ty(vt, y, keep))
+                            && es.iter().map(|(x, _)| self.reader_key(k, x, keep)).collect::<std::collections::BTreeSet<_>>().len() == es.len())
                 }
                 _ => true,
             },
         }
     }
-    fn tc_fields(&self, fs: &[SField], v: &TVal) -> bool {
+    fn tc_fields(&self, fs: &[SField], v: &TVal, keep: bool) -> bool {
         let TVal::Struct(wfs) = v else { return false };
         wfs.iter().all(|(id, x)| match fs.iter().find(|f| f.id == *id) {
-            Some(f) if self.wire_tt(&f.ty) == x.tt() => self.tc_ty(&f.ty, x),
+            Some(f) if self.wire_tt(&f.ty) == x.tt() => self.tc_ty(&f.ty, x, keep),
             _ => true,
         })
     }
